@@ -88,4 +88,10 @@ def main(argv=None):
     if a.what == "selftest":
         from . import selftest
         return selftest.main(a.arg or "all", a.tier)
-    return run_check(a.what, a.tier, a.runs, a.config)
+    try:
+        return run_check(a.what, a.tier, a.runs, a.config)
+    except Exception as e:  # noqa: BLE001  a defect of the harness is never reported as a violation (exit 1)
+        import traceback
+        traceback.print_exc()
+        print(f"HARNESS-ERROR property={a.what} {type(e).__name__}: {str(e)[:300]}")
+        return 2
